@@ -476,6 +476,12 @@ M('C12', 'renaming the flag consistently is fine', MPS,
             opstr = 'JW' if has_extra_JW else None
         ops_L, i_min, odd_JW = self._term_to_ops_list(term_L, autoJW, i_L[0], has_extra_JW)""",
   None, 'silent')
+M('C12', 'set_common_charges unsorted leg unbound (original defect)', SITE,
+  '            leg = leg_unsorted\n            perm_flat = None', '            perm_flat = None',
+  'DEF-before-use')
+M('C12', 'GroupedSite independent branch forgets legs = []', SITE,
+  """            # charges are separately conserved
+            legs = []""", """            # charges are separately conserved""", 'DEF-before-use')
 
 # ---------------------------------------------------------------- C09
 M('C09', 'roll converts to B form (original defect)', MPS,
